@@ -38,7 +38,9 @@ func (c15) RequiredBuckets(tier string) []string {
 	out = append(out, "sites:0", "sites:1", "sites:2+", "sites:overlapping", "sites:duplicate-head", "sites:reverse-strand", "sites:unsorted", "topology:circular", "topology:linear", "format:fasta", "format:genbank", "input:corpus", "input:generated", "locator:modifier")
 	return out
 }
-func (c15) Findings() []fw.Finding { return nil }
+func (c15) Findings() []fw.Finding {
+	return []fw.Finding{{ID: "join-drops-point-after-range", What: "join reduction drops a single base that directly follows a range", Witness: witnessJoinDropsPoint}}
+}
 
 type c15rec struct {
 	text   []byte
@@ -471,8 +473,10 @@ func (x *c15run) one(rec *c15rec, cmd string, flags []string, locstr string, r *
 				viol("feature-not-once", gen.Label(f)+" once", fmt.Sprint(len(g)))
 				return
 			}
-			v, why, id := model.CompareImage(exp, model.Parts(g[0].Loc), model.CmpOpt{MaxCoord: len(want), IgnoreSites: true, IgnoreMarkers: true, AllowDropPoint: true})
-			_ = id
+			v, why, id := model.CompareImage(exp, model.Parts(g[0].Loc), model.CmpOpt{MaxCoord: len(want), IgnoreSites: true, IgnoreMarkers: true, AllowDropPoint: c.KFEnabled("join-drops-point-after-range")})
+			if v == model.VKnown {
+				c.Known(id, enc)
+			}
 			if v == model.VBad {
 				viol("feature-"+why, fmt.Sprintf("%s %s -> %s", gen.Label(f), model.SafeString(f.Loc), model.XPartsString(exp)), model.SafeString(g[0].Loc))
 				return
@@ -548,7 +552,10 @@ func (x *c15run) one(rec *c15rec, cmd string, flags []string, locstr string, r *
 				viol("feature-not-once", gen.Label(f)+" once", fmt.Sprint(len(g)))
 				return
 			}
-			v, why, _ := model.CompareImage(exp, model.Parts(g[0].Loc), model.CmpOpt{MaxCoord: L, CyclicL: L, IgnoreSites: true, AllowDropPoint: true})
+			v, why, id := model.CompareImage(exp, model.Parts(g[0].Loc), model.CmpOpt{MaxCoord: L, CyclicL: L, IgnoreSites: true, AllowDropPoint: c.KFEnabled("join-drops-point-after-range")})
+			if v == model.VKnown {
+				c.Known(id, enc)
+			}
 			if v == model.VBad {
 				viol("feature-"+why, fmt.Sprintf("%s %s -> %s", gen.Label(f), model.SafeString(f.Loc), model.XPartsString(exp)), model.SafeString(g[0].Loc))
 				return
